@@ -9,7 +9,7 @@ import tarfile
 from hypothesis import strategies as st
 
 from hv.core import track as core_track
-from hv.core import Outcome, lib
+from hv.core import Outcome, lib, lib_delegating
 from hv.sparse import pattern
 
 ID = "C20"
@@ -20,7 +20,9 @@ RULE = (
     "header area: ascending, descending or shuffled, page-aligned or unaligned with gaps, offsets beyond 64 KiB), visor "
     "directories and empty files (data offset 0), ordinary ustar / GNU / PAX members with inline data, directories, symlinks, "
     "long names (GNU L records, PAX path records, ustar prefixes up to 155 bytes that overlap the visor offset field), end-of-"
-    "archive blocks and trailing padding; plain and gzip-wrapped. Headers come from TarInfo.tobuf and are patched (magic "
+    "archive blocks and trailing padding; payloads that are themselves tar archives (valid block-aligned headers inside the data "
+    "area, possibly repeating an outer name); the data area placed around and above 2^31 (sparse in-memory handle); plain and "
+    "gzip-wrapped. Headers come from TarInfo.tobuf and are patched (magic "
     "'visor  ', little-endian data offset at 496, page counts at 504/508, checksum recomputed). Oracle: names, types and sizes "
     "in header order equal the spec, extractfile(m).read() equals the bytes placed at the recorded offset; archives without "
     "visor members must list and extract exactly as tarfile.open does. Non-trivial = >= 2 visor files whose data order "
@@ -36,6 +38,16 @@ NAME_PARTS = ["etc", "vmware", "file1", "a b", "ünï", "lib64", "x" * 40, "conf
 
 def budget(tier):
     return 8000 if tier == "quick" else 50000
+
+
+def content(m) -> bytes:
+    """The stored bytes of a regular member."""
+    n = m.get("nested")
+    if n:
+        ti = tarfile.TarInfo(n["name"])
+        ti.size = n["len"]
+        return ti.tobuf(tarfile.USTAR_FORMAT) + pattern(m["key"], 0, n["len"]).ljust(-(-n["len"] // 512) * 512, b"\0") + bytes(512 * n["end_blocks"])
+    return pattern(m["key"], 0, m["size"])
 
 
 @st.composite
@@ -57,6 +69,12 @@ def member(draw, idx):
         m["key"] = draw(st.integers(1, 1 << 30))
         m["text_pgs"] = draw(st.sampled_from([0, 0, 1, 5]))
         m["fixup_pgs"] = draw(st.sampled_from([0, 0, 2]))
+        if draw(st.integers(0, 5)) == 0:
+            # the payload is itself a tar archive (block-aligned valid headers inside the data area); its member may carry the
+            # name of a member of the outer archive
+            m["nested"] = {"name": draw(st.sampled_from([f"inner_{idx}", name if len(name.encode()) < 100 else "x", "etc/file1_0"])), "len": draw(st.sampled_from([0, 1, 512, 700])),
+                           "end_blocks": draw(st.sampled_from([0, 2]))}
+            m["size"] = len(content(m))
         if kind == "visor-file":
             # the byte behind the 7-byte magic (NUL in the sample, a version digit or space elsewhere) and the regular-file type flags
             m["magic_tail"] = draw(st.sampled_from([0, 0, 0, 0x30, 0x20]))
@@ -74,7 +92,9 @@ def archive_spec(draw, tier):
     order = draw(st.permutations(visor_files)) if draw(st.booleans()) else (list(reversed(visor_files)) if draw(st.booleans()) else visor_files)
     return {"members": members, "data_order": list(order), "align": draw(st.sampled_from([4096, 4096, 512, 1, 7])),
             "gap": draw(st.sampled_from([0, 0, 1, 5000, 70000])), "end_blocks": draw(st.sampled_from([2, 2, 3, 8])),
-            "trailing": draw(st.sampled_from([0, 0, 512, 10240, 100])), "gzip": draw(st.booleans()), "via": draw(st.sampled_from(["fileobj", "fileobj", "name"]))}
+            "trailing": draw(st.sampled_from([0, 0, 512, 10240, 100])), "gzip": draw(st.booleans()), "via": draw(st.sampled_from(["fileobj", "fileobj", "name"])),
+            # the data area far behind the headers: recorded offsets around and above 2^31 (uncompressed archives, sparse handle)
+            "far": draw(st.sampled_from([0, 0, 0, 0, 0x7FFFF000, 0x80000000, 0xC0000000, 0xFFF00000]))}
 
 
 def strategy(tier):
@@ -107,6 +127,29 @@ def _header(m) -> bytes:
 
 def build(spec):
     """-> (archive bytes (uncompressed), expected [(name, type, size, data | None)])"""
+    head, pieces, total, expected = build_parts(dict(spec, far=0))
+    out = bytearray(total)
+    out[: len(head)] = head
+    for off, data in pieces:
+        out[off : off + len(data)] = data
+    return bytes(out), expected
+
+
+def build_sparse(spec):
+    """The same archive as an in-memory sparse handle (for data areas placed gigabytes behind the headers)."""
+    from hv.sparse import SparseFile
+
+    head, pieces, total, expected = build_parts(spec)
+    fh = SparseFile(total)
+    fh.put(0, head)
+    for off, data in pieces:
+        if data:
+            fh.put(off, data)
+    return fh, expected
+
+
+def build_parts(spec):
+    """-> (header area bytes, [(offset, data)] of the visor data area, total length, expected [(name, type, size, data | None)])"""
     members = spec["members"]
     headers = []
     for m in members:
@@ -123,14 +166,17 @@ def build(spec):
     end_of_headers = pos + 512 * spec["end_blocks"]
     # data area for visor files
     offsets = {}
-    cur = end_of_headers + spec["gap"]
+    cur = max(end_of_headers + spec["gap"], spec.get("far", 0))
     a = spec["align"]
     for i in spec["data_order"]:
         cur = -(-cur // a) * a
         offsets[i] = cur
         cur += members[i]["size"] + (spec["gap"] % 977)
     total = cur + spec["trailing"]
-    out = bytearray(total)
+    if max(offsets.values(), default=0) >= 1 << 32:
+        raise ValueError("data offset does not fit the 32-bit field")
+    out = bytearray(end_of_headers)
+    pieces = []
     expected = []
     for i, (m, h) in enumerate(zip(members, headers)):
         k = m["kind"]
@@ -148,10 +194,10 @@ def build(spec):
         out[layout[i] : layout[i] + len(h)] = h
         data = None
         if k == "visor-file":
-            data = pattern(m["key"], 0, m["size"])
-            out[offsets[i] : offsets[i] + m["size"]] = data
+            data = content(m)
+            pieces.append((offsets[i], data))
         elif k == "std-file":
-            data = pattern(m["key"], 0, m["size"])
+            data = content(m)
             p = layout[i] + len(h)
             out[p : p + m["size"]] = data
         elif k in ("visor-empty", "std-empty"):
@@ -160,7 +206,7 @@ def build(spec):
         if k == "visor-file" and m.get("regtype", "0") != "0":
             typ = m["regtype"].encode()
         expected.append((m["name"].rstrip("/"), typ, m.get("size", 0), data))
-    return bytes(out), expected
+    return bytes(out), pieces, total, expected
 
 
 def nontrivial(spec) -> bool:
@@ -181,22 +227,30 @@ def check(spec) -> Outcome:
     from dissect.hypervisor.util import vmtar
 
     out = Outcome()
-    raw, expected = build(spec)
-    blob = gzip.compress(raw, 1, mtime=0) if spec["gzip"] else raw
+    far = spec.get("far", 0) and not spec["gzip"] and any(m["kind"] == "visor-file" for m in spec["members"])
+    if far:
+        sparse_fh, expected = build_sparse(spec)
+        out.cls("far-data")
+        blob = None
+    else:
+        raw, expected = build(spec)
+        blob = gzip.compress(raw, 1, mtime=0) if spec["gzip"] else raw
     has_visor = any(m["kind"].startswith("visor") for m in spec["members"])
     out.nontrivial = nontrivial(spec)
     out.cls("gzip" if spec["gzip"] else "plain", "visor" if has_visor else "no-visor", f"members={min(len(spec['members']) // 4 * 4, 12)}+")
     if any(m["longname"] for m in spec["members"]):
         out.cls("long-names")
+    if any(m.get("nested") for m in spec["members"]):
+        out.cls("nested-tar-payload")
 
     def run():
-        t = vmtar.open(fileobj=core_track(blob))
+        t = vmtar.open(fileobj=sparse_fh if far else core_track(blob))
         try:
             return read_all(t)
         finally:
             t.close()
 
-    got, err = lib(run)
+    got, err = lib_delegating("vmtar.py:open(tarfile)", run)
     if err:
         out.fail(err.sig("vmtar"), f"vmtar.open / extract raised {err.describe()}")
         return out
